@@ -325,9 +325,9 @@ theorem multi_set_get_exec (mode : Mode) (s : Sys) (c : Nat) (hr : Ready s c) (h
       (c, .arr [.ok, .bulk v]) :: (c, .queued) :: (c, .queued) :: (c, .ok) :: s.out := by
   obtain ⟨o1, q1, d1, _⟩ := multi_step mode hr hw h1
   obtain ⟨o2, q2, d2, _⟩ := queued_step mode q1 nSet [k, v] (h2.lookup.trans reg_set.look)
-    (show FR.StrKeys.sigSet.checkArity 2 = true by decide) (by decide)
+    (show FR.StrKeys.sigSet.checkArity 2 = true by decide) (by decide) (by decide)
   obtain ⟨o3, q3, d3, _⟩ := queued_step mode q2 nGet [k] (h3.lookup.trans reg_get.look)
-    (show FR.StrKeys.sigGet.checkArity 1 = true by decide) (by decide)
+    (show FR.StrKeys.sigGet.checkArity 1 = true by decide) (by decide) (by decide)
   have i3 : (after mode (after mode (after mode s (c, [nMulti])) (c, [nSet, k, v])) (c, [nGet, k])).DataInv :=
     hi.frame (d3.trans (d2.trans d1))
   obtain ⟨o4, _⟩ := exec_set_get_step mode k v q3 i3 h4
